@@ -452,3 +452,22 @@ mod test {
         assert_eq!(page_number, page_number2);
     }
 }
+
+// Verification hook H3 (read-only, add-only): see page_store/verif/snapshot.rs
+#[cfg(redb_verif)]
+impl PageTracker {
+    pub(crate) fn verif_snapshot(&self) -> crate::verif::VPageTracker {
+        use crate::verif::{VPageTracker, VPageTrackerState, vpages};
+        let policy = self.policy.lock().unwrap();
+        let (state, pages) = match &*policy {
+            PageTrackerPolicy::Ignore => (VPageTrackerState::Ignore, alloc::vec![]),
+            PageTrackerPolicy::Track(x) => (VPageTrackerState::Track, vpages(x.iter().copied())),
+            PageTrackerPolicy::Closed => (VPageTrackerState::Closed, alloc::vec![]),
+        };
+        VPageTracker {
+            state,
+            tracking_flag: self.tracking(),
+            pages,
+        }
+    }
+}
